@@ -94,7 +94,7 @@ def c_white(ctx, case):
 def g_wccn(draw):
     F = gen.integer(draw, 1, 4)
     K = gen.integer(draw, 1, 5)
-    sizes = [gen.integer(draw, 2, 6) for _ in range(K)]
+    sizes = [gen.integer(draw, 1, 6) for _ in range(K)]  # a class may hold a single sample
     while sum(s - 1 for s in sizes) < F + 1:
         sizes[gen.integer(draw, 0, K - 1)] += 1
     n = sum(sizes)
@@ -145,6 +145,7 @@ def c_wccn(ctx, case):
     y = np.array([case["names"][c] for c in cls], dtype=np.int64)
     yarg = y.tolist() if case["as_list"] else y
     ctx.note(K >= 2 and case["names"] != list(range(K)), "labels:" + case["style"], "K=%d" % K,
+             "single-sample-class" if (np.bincount(cls) == 1).any() else None,
              "dask" if case["dask"] else "numpy", "pinv" if case["pinv"] else "inv", "list-y" if case["as_list"] else "array-y")
     from vf import sut
 
